@@ -226,6 +226,9 @@ def run_property(prop, tier, replay=None, facts_override=None, quiet=False):
         mod.run(ctx)
     except F.AnchorMissing as e:
         ctx.ob('ANCHOR', 'anchor:' + str(e), False, '-', 'anchor missing: %s (failing closed)' % e)
+    except Exception as e:  # a rule that cannot cope with the code's shape cannot decide: fail closed
+        traceback.print_exc(file=sys.stderr)
+        ctx.ob('CRASH', 'rule-crash', False, '-', 'the rule engine raised %s: %s (code shape not understood; failing closed)' % (type(e).__name__, e))
     # skipped bodies must not be in the files the rules own
     owned = set(getattr(mod, 'FILES', []))
     for sk in ctx.prog.end.get('skipped', []):
